@@ -10,17 +10,18 @@
    processes (engine/real/spawn_parent.py).                                                                    *)
 EXTENDS Integers, FiniteSets, Sequences, TLC, Json
 
-CONSTANTS Slots, EnvKeys, Ends, Methods
+CONSTANTS Slots, EnvKeys, Ends, Methods,
+          Launches      \* how the parent program was started: "script" (python file.py) | "module" (python -m pkg.mod); no prediction depends on it
 
 FdStates == {"absent", "inh", "noinh"}
 OvStates == {"absent", "set", "empty"}
 \* parent environment: keys "A" and "B" are set in the parent ("pa", "pb"); "C" is not
 ParentEnv(k) == IF k = "A" THEN "pa" ELSE IF k = "B" THEN "pb" ELSE "<unset>"
 
-VARIABLES fds, ov, end, method, phase, childFds, childEnv, exitcode, sentinelReady, mainRuns
-vars == <<fds, ov, end, method, phase, childFds, childEnv, exitcode, sentinelReady, mainRuns>>
+VARIABLES fds, ov, end, method, launch, phase, childFds, childEnv, exitcode, sentinelReady, mainRuns
+vars == <<fds, ov, end, method, launch, phase, childFds, childEnv, exitcode, sentinelReady, mainRuns>>
 
-Init == /\ fds \in [Slots -> FdStates] /\ ov \in [EnvKeys -> OvStates] /\ end \in Ends /\ method \in Methods
+Init == /\ fds \in [Slots -> FdStates] /\ ov \in [EnvKeys -> OvStates] /\ end \in Ends /\ method \in Methods /\ launch \in Launches
         /\ phase = "parent" /\ childFds = {} /\ childEnv = [k \in EnvKeys |-> "?"] /\ exitcode = 1000
         /\ sentinelReady = FALSE /\ mainRuns = 1
 
@@ -28,11 +29,11 @@ Start == /\ phase = "parent" /\ phase' = "running"
          /\ childFds' = {}                                             \* nothing beyond stdio and loky's own handles
          /\ childEnv' = [k \in EnvKeys |-> CASE ov[k] = "set" -> "ov" [] ov[k] = "empty" -> "" [] OTHER -> ParentEnv(k)]
          /\ mainRuns' = IF method = "loky_init_main" THEN 2 ELSE 1
-         /\ UNCHANGED <<fds, ov, end, method, exitcode, sentinelReady>>
+         /\ UNCHANGED <<fds, ov, end, method, launch, exitcode, sentinelReady>>
 Finish == /\ phase = "running" /\ phase' = "ended"
           /\ exitcode' = IF end[1] = "exit" THEN end[2] ELSE 0 - end[2]
           /\ sentinelReady' = TRUE
-          /\ UNCHANGED <<fds, ov, end, method, childFds, childEnv, mainRuns>>
+          /\ UNCHANGED <<fds, ov, end, method, launch, childFds, childEnv, mainRuns>>
 Next == Start \/ Finish
 Spec == Init /\ [][Next]_vars
 
@@ -41,5 +42,5 @@ SentinelIffGone == sentinelReady <=> phase = "ended"
 ExitFaithful == phase = "ended" => (end[1] = "exit" => exitcode = end[2]) /\ (end[1] = "signal" => exitcode = 0 - end[2])
 Emit == phase = "ended" =>
           PrintT(ToJson(<<"VEC", [s \in Slots |-> fds[s]], [k \in EnvKeys |-> ov[k]], end, method,
-                          [k \in EnvKeys |-> childEnv[k]], exitcode, mainRuns>>))
+                          [k \in EnvKeys |-> childEnv[k]], exitcode, mainRuns, launch>>))
 =============================================================================
